@@ -330,12 +330,36 @@ func (d Decimal) Product(input Decimal) (Decimal, error) {
 	if exponent > maxDecimalExponent || exponent < -maxDecimalExponent {
 		return Decimal{}, fmt.Errorf("%w: decimal exponent %d", ErrIntOverflow, exponent)
 	}
+	if digits := d.magnitude() + input.magnitude(); digits > maxDecimalExponent {
+		return Decimal{}, fmt.Errorf("%w: decimal of %d digits", ErrIntOverflow, digits)
+	}
 	return d.Mul(input), nil
+}
+
+// magnitude is the number of digits d has in front of the decimal point (zero or
+// negative for a value below one): the size of the numbers that arithmetic on d
+// has to carry, whether it is held in the exponent or in the digits.
+func (d Decimal) magnitude() int64 {
+	if decimal.Decimal(d).IsZero() {
+		return 0
+	}
+	return int64(decimal.Decimal(d).NumDigits()) + int64(decimal.Decimal(d).Exponent())
 }
 
 // Div divides d by input.
 func (d Decimal) Div(input Decimal) Decimal {
 	return Decimal(decimal.Decimal(d).Div(decimal.Decimal(input)))
+}
+
+// Quotient is Div for the '/' operator, with the same bound as Product: a
+// quotient that would have more digits in front of the decimal point than
+// maxDecimalExponent is ErrIntOverflow. Without it every division by a very
+// small number makes the value - and each later operation on it - longer.
+func (d Decimal) Quotient(input Decimal) (Decimal, error) {
+	if digits := d.magnitude() - input.magnitude() + 1; digits > maxDecimalExponent {
+		return Decimal{}, fmt.Errorf("%w: decimal of %d digits", ErrIntOverflow, digits)
+	}
+	return d.Div(input), nil
 }
 
 // FloorDiv divides d by input and rounds down.
